@@ -299,6 +299,18 @@ class _Conn:
             plan.fire('after-commit')
         return res
 
+    # sqlite3.Connection is a context manager (commit on success, rollback
+    # on an exception; the connection stays open): code under test may use it
+    def __enter__(self):
+        return self
+
+    def __exit__(self, exc_type, exc, tb):
+        if exc_type is None:
+            self.commit()
+        else:
+            self._real.rollback()
+        return False
+
     def __getattr__(self, name):
         return getattr(self._real, name)
 
